@@ -236,6 +236,10 @@ func (p *Packet) NewData(data interface{}, dims []int16) error {
 	if nbytes := pfmt.wordlen * reflect.ValueOf(data).Len(); nbytes > maxPACKETLENGTH {
 		return fmt.Errorf("payload length %d exceeds max packet length of %d", nbytes, maxPACKETLENGTH)
 	}
+	// The header length is an 8-bit field: refuse a shape that would silently wrap around it.
+	if hlen := int(p.headerLength) + 8 + 8*(1+ndim/4); hlen > math.MaxUint8 {
+		return fmt.Errorf("header length %d with %d dimensions exceeds max of %d", hlen, ndim, math.MaxUint8)
+	}
 	p.format = pfmt
 	p.headerLength += 8
 	p.shape = new(headPayloadShape)
